@@ -197,3 +197,53 @@ shrink = c09.shrink
 LEVEL_TEXT += (' CLOUD/RAIN (Model/CloudRain.v): C08_cloudrain_read_write - reading a file of unambiguous size and writing what was presented (ncf2cloud_rain, hand-modelled '
                'as c_write) reproduces the file word for word and the written file decodes to the content; region 21 = inherently ambiguous sizes '
                '(C09_cloudrain_ambiguous_size_refuted). Cases: constructor CD8.')
+
+
+# ----------------------------------------------------------------------------- land-use files evaluated in Coq (Model/Landuse.v)
+from harness import landusecheck as LU  # noqa: E402
+
+_lu_prev = dict(gen=gen, impl=impl, coq_term=coq_term, py_check=py_check, nontrivial=nontrivial, shrink=shrink)
+
+
+def gen(rng, n, tier):  # noqa: F811
+    out = _lu_prev['gen'](rng, n, tier)
+    # old-style (fland, optional topo) and new-style (LUCAT11 / LUCAT26 key, optional LAI / TOPO) files; a share with first payload
+    # bytes that are no UTF-8 (the reader decodes them to sniff the style: region 16)
+    for i in range(max(3, n // 15)):
+        c = LU.gen_lu(rng, tier)
+        out.append(dict(kind='lu', content=c, write=True, reread=True))
+    return out
+
+
+def impl(case):  # noqa: F811
+    return LU.run_lu(case) if LU.is_lu(case) else _lu_prev['impl'](case)
+
+
+def coq_term(case, obs):  # noqa: F811
+    if LU.is_lu(case):
+        return None if 'raises' in obs else LU.lu_term(case, obs, '8')
+    return _lu_prev['coq_term'](case, obs)
+
+
+def py_check(case, obs):  # noqa: F811
+    if LU.is_lu(case):
+        if 'raises' in obs:
+            return dict(s_ok=False, why='harness/impl raised ' + str(obs))
+        why = LU.lu_py_check(case, obs, True)
+        return dict(s_ok=not why, region=LU.lu_region(case, obs), why='; '.join(why[:3]))
+    return _lu_prev['py_check'](case, obs)
+
+
+def nontrivial(case, obs):  # noqa: F811
+    if LU.is_lu(case):
+        return obs.get('mm', {}).get('status') == 'ok' or case.get('cut') is not None
+    return _lu_prev['nontrivial'](case, obs)
+
+
+def shrink(case):  # noqa: F811
+    return [] if LU.is_lu(case) else _lu_prev['shrink'](case)
+
+
+LEVEL_TEXT += (' LAND USE (Model/Landuse.v): C08_landuse_read_write - for EVERY well-formed land-use file with decodable first bytes, reading it and writing what was '
+               'presented (ncf2landuse, hand-modelled as lu_write) reproduces the file word for word and the written file decodes to the content. Before 58a734f the '
+               'optional records of a new-style file were written first (former region 22: corpus/C08/landuse-writer-record-order.json). Cases: constructor LUD8.')
